@@ -19,3 +19,31 @@ func (r *Receiver) VerifPending() map[string]string {
 	}
 	return out
 }
+
+// VerifIdle reports whether every downloader has processed the newest snapshot the receiver
+// has seen for its instance (racy read of Downloader.last; verification harness only).
+func (r *Receiver) VerifIdle() bool {
+	r.mu.Lock()
+	defer r.mu.Unlock()
+	for inst, d := range r.downloadersByInstance {
+		ni, ok := r.lastSeenByInstance[inst]
+		if !ok {
+			continue
+		}
+		if d.last.FullName != ni.FullName {
+			return false
+		}
+	}
+	return true
+}
+
+// VerifCorrupt returns the names marked corrupt so far.
+func (r *Receiver) VerifCorrupt() []string {
+	r.mu.Lock()
+	defer r.mu.Unlock()
+	var out []string
+	for n := range r.corruptSnapshots {
+		out = append(out, n)
+	}
+	return out
+}
